@@ -101,6 +101,8 @@ outcome_s = st.one_of(
     # failures that reach the caller as something other than a UDS exception: the reconnect of a retry is refused, the
     # transport fails with a non-connection OS error, the ECU never stops sending ResponsePending
     st.just(["connerr-retry-refused"]), st.just(["oserror"]), st.just(["pending-stuck"]),
+    # the connection is lost during the first attempt, the retry (after an automatic reconnect) gets the reply
+    st.just(["connerr-retry-ok"]), st.just(["connerr-retry-ok"]),
     st.tuples(st.just("pending"), st.integers(1, 3), st.sampled_from(["positive", "negative"])).map(list),
 )
 
@@ -249,6 +251,9 @@ def run_history(case: dict[str, Any], dbpath: Path) -> dict[str, Any]:
                 elif kind == "connerr-retry-refused":
                     tr.queue = [ConnectionResetError("script")]
                     tr.reconnect_fail = ConnectionRefusedError("script: peer is gone")
+                elif kind == "connerr-retry-ok":
+                    reply = genuine if genuine is not None else bytes([0x7F, req_bytes[0], 0x31])
+                    tr.queue = [ConnectionResetError("script"), reply]
                 elif kind == "oserror":
                     tr.queue = [OSError(113, "script: no route to host")]
                 elif kind == "pending-stuck":
@@ -264,7 +269,7 @@ def run_history(case: dict[str, Any], dbpath: Path) -> dict[str, Any]:
                     tags_ = (["ANALYZE"] if e["analyze"] else []) + list(e.get("more_tags") or [])
                     if e.get("tags_first"):
                         tags_.reverse()
-                    cfg_ = UDSRequestConfig(tags=tags_ or None, max_retry=1 if kind == "connerr-retry-refused" else None)
+                    cfg_ = UDSRequestConfig(tags=tags_ or None, max_retry=1 if kind in ("connerr-retry-refused", "connerr-retry-ok") else None)
                     if with_ping:
                         # a second user of the client (the tester-present worker's ping) asks while this exchange is in flight; the
                         # client serialises the two, the ping is sent - and recorded - in the state this exchange leaves behind
